@@ -170,6 +170,35 @@ ModelColIndex(M) ==
     IN Exp(0)
 ViewColIndex(ci, M) == D!SameSeq(ci, ModelColIndex(M))
 
+(* ======================= comparison BY VALUE (stored zero == absent) ======================= *)
+(* The property fixes the VALUE at every position, not whether an explicit zero is kept as an      *)
+(* entry: get may answer Some(0) or None there, the triplet list may or may not contain it, the   *)
+(* entry count may or may not include it.  These predicates are what the trace specification      *)
+(* demands; the storage itself must still be Structured and duplicate-free.                        *)
+MVal(M, i, j) == IF <<i, j>> \in DOMAIN M.map THEN M.map[<<i, j>>] ELSE 0
+MSameValue(M1, M2) == M1.rows = M2.rows /\ M1.cols = M2.cols /\ D!SameMat(MDense(M1), MDense(M2))
+\* linear form of  MSameValue(Abs(S), M)  for Structured, duplicate-free S  (checked in MC_SparseCSC)
+RefinesValue(S, M) ==
+    LET ci == ColIndex(S)
+        E == {<<S.ri[m], ci[m]>> : m \in 1..S.nz}
+    IN /\ S.rows = M.rows /\ S.cols = M.cols
+       /\ Cardinality(E) = S.nz
+       /\ \A m \in 1..S.nz : S.val[m] = MVal(M, S.ri[m], ci[m])
+       /\ \A p \in DOMAIN M.map : M.map[p] # 0 => p \in E
+ViewGetV(gp, gv, M) ==
+    /\ gp.r = M.rows /\ gp.c = M.cols /\ Len(gp.d) = M.rows * M.cols
+    /\ gv.r = M.rows /\ gv.c = M.cols /\ Len(gv.d) = M.rows * M.cols
+    /\ \A i \in 0..(M.rows - 1), j \in 0..(M.cols - 1) :
+          /\ D!At(gv, i, j) = MVal(M, i, j)                       \* Some(v) -> v, None -> 0
+          /\ D!At(gp, i, j) \in {0, 1}
+          /\ (MVal(M, i, j) # 0 => D!At(gp, i, j) = 1)             \* a non-zero value must be found
+ViewTripletsV(ts, M) ==
+    /\ DupFree(ts)
+    /\ \A m \in 1..Len(ts) : Len(ts[m]) = 3 /\ MInRange(M, ts[m][1], ts[m][2]) /\ ts[m][3] = MVal(M, ts[m][1], ts[m][2])
+    /\ \A p \in DOMAIN M.map : M.map[p] # 0 => p \in PosSet(ts)
+\* col_index: the column of each stored entry in storage order -- fixed by the (well-formed) fields
+ViewColIndexF(ci, S) == D!SameSeq(ci, ColIndex(S))
+
 (* ======================= histories: one transition function each ======================= *)
 \* o is an operation record [op, i, j, v, a]
 IsMutator(o) == o.op \in {"insert", "scale", "transpose"}
